@@ -21,6 +21,7 @@ pub struct Evt {
     pub id: i64,
     pub name: String,
     pub tags: Vec<String>,
+    pub note: Option<String>,
 }
 
 impl From<Evt> for Value {
@@ -29,11 +30,18 @@ impl From<Evt> for Value {
             ("id".into(), Value::Long(m.id)),
             ("name".into(), Value::String(m.name)),
             ("tags".into(), Value::Array(m.tags.into_iter().map(Value::String).collect())),
+            (
+                "note".into(),
+                match m.note {
+                    None => Value::Union(0, Box::new(Value::Null)),
+                    Some(n) => Value::Union(1, Box::new(Value::String(n))),
+                },
+            ),
         ])
     }
 }
 
-const EVT_SCHEMA: &str = r#"{"type":"record","name":"Evt","fields":[{"name":"id","type":"long"},{"name":"name","type":"string"},{"name":"tags","type":{"type":"array","items":"string"}}]}"#;
+const EVT_SCHEMA: &str = r#"{"type":"record","name":"Evt","fields":[{"name":"id","type":"long"},{"name":"name","type":"string"},{"name":"tags","type":{"type":"array","items":"string"}},{"name":"note","type":["null","string"]}]}"#;
 
 fn has_logical(j: &J) -> bool {
     match j {
@@ -159,16 +167,18 @@ const OPS: [Op; 8] = [Op::Short, Op::Medium, Op::FailValidate, Op::SinkErr, Op::
 
 fn evt(op: Op) -> Evt {
     match op {
-        Op::Short => Evt { id: 1, name: String::new(), tags: vec![] },
-        Op::Long => Evt { id: i64::MIN, name: "n".repeat(300), tags: (0..20).map(|i| format!("tag{i}")).collect() },
-        _ => Evt { id: 1 << 40, name: "hello world".into(), tags: vec!["a".into(), "bcd".into()] },
+        Op::Short => Evt { id: 1, name: String::new(), tags: vec![], note: None },
+        Op::Long => Evt { id: i64::MIN, name: "n".repeat(300), tags: (0..20).map(|i| format!("tag{i}")).collect(), note: Some("a longer note".into()) },
+        _ => Evt { id: 1 << 40, name: "hello world".into(), tags: vec!["a".into(), "bcd".into()], note: Some("n".into()) },
     }
 }
 
 /// A value that validation accepts but the encoder rejects, if the library has one (C07's subject).
 fn encoder_failing_value(schema: &Schema) -> Option<Value> {
     let candidates = vec![
-        Value::Map([("id".to_string(), Value::Long(1)), ("name".to_string(), Value::String("x".into())), ("tags".to_string(), Value::Array(vec![]))].into_iter().collect()),
+        // the trailing nullable field omitted: the encoder gives up after the first three fields (partial bytes)
+        Value::Record(vec![("id".into(), Value::Long(5)), ("name".into(), Value::String("partial".into())), ("tags".into(), Value::Array(vec![Value::String("t".into())]))]),
+        Value::Map([("id".to_string(), Value::Long(1)), ("name".to_string(), Value::String("x".into())), ("tags".to_string(), Value::Array(vec![])), ("note".to_string(), Value::Union(0, Box::new(Value::Null)))].into_iter().collect()),
         Value::Record(vec![("id".into(), Value::Long(1)), ("name".into(), Value::String("x".into()))]),
     ];
     for c in candidates {
